@@ -25,6 +25,7 @@ import (
 //   R-table-locked      every access to the table holds the table's lock (writes exclusively)
 //   R-foreign-delete    any other function that deletes from the table cancels the record it removes
 //                       (session termination), and never deletes on a mere write failure of a stream
+//   R-slot-owner        (client) a stream goroutine touches the shared stream slot only while it still owns it
 func init() { Registry["C11"] = checkC11 }
 
 func isCancelFunc(t types.Type) bool { return ir.TypeStr(t) == "context.CancelFunc" }
